@@ -196,15 +196,48 @@ def random_traces(run, n, rng, big):
                 lens.append(rng.choice([253, 254, 255, 256, 257, 65535, 65536, 65537]))
             else:
                 lens.append(rng.randint(1, big))
-        frames = [bytes(rng.getrandbits(8) for _ in range(min(L, 64))) * (L // min(L, 64) + 1) for L in lens]
-        frames = [f[:L] for f, L in zip(frames, lens)]
+        # payload content: random bytes; zeros; or payloads that are themselves sequences of length-prefixed records (what the layer
+        # sees inside a frame must never be taken for framing) - for the last two the chunk boundaries follow the inner records
+        style = rng.choice(["random", "random", "zeros", "nested"])
+        inner = []
+        if style == "random":
+            frames = [bytes(rng.getrandbits(8) for _ in range(min(L, 64))) * (L // min(L, 64) + 1) for L in lens]
+            frames = [f[:L] for f, L in zip(frames, lens)]
+        elif style == "zeros":
+            frames = [b"\x00" * L for L in lens]
+        else:
+            frames = []
+            for L in lens:
+                f = b""
+                while len(f) < L:
+                    m = rng.randint(0, 9)
+                    f += m.to_bytes(3, "big") + bytes(rng.getrandbits(8) for _ in range(m))
+                frames.append(f[:L])
         stream = b"".join(len(f).to_bytes(3, "big") + f for f in frames)
+        cuts = []
+        if style != "random":
+            # boundaries of the inner records (and of runs of three zero bytes)
+            off = 0
+            for f in frames:
+                off += 3
+                j = 0
+                while j < len(f):
+                    m = (int.from_bytes(f[j:j + 3], "big") if style == "nested" and j + 3 <= len(f) else 0)
+                    j += 3 + (m if style == "nested" else 0)
+                    cuts.append(off + min(j, len(f)))
+                    if len(cuts) > 4000:
+                        break
+                off += len(f)
+        cuts = sorted(set(c for c in cuts if 0 < c < len(stream)))
         ev = []
         pos = 0
         content_ok = True
         while pos < len(stream):
             c = rng.random()
-            if c < 0.5:
+            nxt = [x for x in cuts[:4000] if x > pos][:3]
+            if nxt and c < 0.7:
+                k = rng.choice(nxt) - pos
+            elif c < 0.5:
                 k = rng.randint(1, 5)
             elif c < 0.8:
                 k = rng.randint(1, 4096)
@@ -304,7 +337,14 @@ def run():
             replay_recv_path(r, gl, p, sc, core.seed())
             r.case(("loss", tuple(p), si))
             r.cov["traces_validated_against_impl"] += 1
-    r.notes["connection_loss_behaviours"] = len(lpaths)
+    # the specification forgets the dead connection; an implementation might not: random walks reach the same transitions through
+    # different pasts (partial frame of every size before the loss, then frames of other sizes)
+    walks = [p for p in gl.random_walks(6000 if thorough else 1500, 12, rng) if any(gl.edges[i][1]["name"] in ("ConnLost", "DeliverLost") for i in p)]
+    for pi, p in enumerate(walks):
+        replay_recv_path(r, gl, p, SCALES[pi % 3], core.seed())
+        r.case(("loss-walk", tuple(p), pi % 3))
+        r.cov["traces_validated_against_impl"] += 1
+    r.notes["connection_loss_behaviours"] = len(lpaths) + len(walks)
     es = core.tlc("Segments", "Edges_Segments_send.cfg", r.scratch, workers=1)
     gs = core.Graph(es.printed())
     spaths = gs.transition_cover(rng)
